@@ -113,7 +113,7 @@ func main() {
 	drive.Quiet()
 	run := harness.New("C19", "exploration",
 		"case = (mode, sender, schedule kind) cycled by index × PRNG(seed,i) → (3–5 node cluster double, batching/tickers, typed keys spread over all nodes by hash tag, "+
-			"generated stream with unique ids, migration schedule keyed on the cluster-wide request counter); non-trivial = the scripted topology change fired while the tool was replaying "+
+			"generated stream with unique ids, migration schedule keyed on the cluster-wide request counter, or — refresh-mid-build — on the request the client issues between two Put calls of one batch); non-trivial = the scripted topology change fired while the tool was replaying "+
 			"(schedule 'none': ≥2 nodes executed business writes); distinct = (mode, sender, schedule kind, outcome, redirect kinds served)")
 	run.Watchdog(25 * time.Minute)
 	run.MinDistinct(8)
@@ -122,6 +122,7 @@ func main() {
 	run.Assume("transactional cluster mode is driven as cmd/syncer.go configures it: output = one shard of the cluster (FixTopology + SelNodes), stream keys inside that shard's slots, checkpoint key chosen inside the shard's slots (choseKeyInSlots re-implemented: prefix + '-' + 20 letters, first DFS hit)")
 	run.Assume("workload: every hash tag owns typed keys (string/list/hash/set/zset) so no generated command can fail on a consistent replica; the double executes them for real (key existence drives ASK/TRYAGAIN); an error reply of the double to a generated command makes the case inconclusive")
 	run.Assume("a Send that returns by itself (any error, or nil) is followed by StartPoint+Send in the tool's input loop: it counts as a reported restart from the stored resume position")
+	run.Assume("schedule refresh-mid-build (blocking non-transactional sender only): after the victim slot migrated, a lone write on it is answered MOVED and makes the client request a fresh slot table; the double holds that CLUSTER SLOTS reply back until it sees the COMMAND GETKEYS request the client issues while building the next batch — the stream carries one EXISTS (a command outside the client's key table, not something a master propagates) between the writes on the victim key for that purpose — then waits 4 ms before answering; the old owner answers every request 1 ms late. Delays only shape the interleaving, the verdict is the per-key order oracle's")
 	run.Assume("quiescence = the sender stored the stream's end offset as resume position (it consumed every item and flushed its queue) and 4 keep-alive PING batches were served afterwards (at most 3 batches are in flight behind the dispatcher)")
 
 	harness.Parallel(n, 16, func(i int) {
@@ -1061,11 +1062,11 @@ func oneCase(run *harness.Run, key string, idx int, r *rand.Rand, cc caseCfg) {
 				}
 				id := gen.FindID(q.Args)
 				p, mine := w.pos[k][id]
-				if !(mine && near(p)) && q.Cmd != "CLUSTER" && q.Cmd != "ASKING" {
+				if !(mine && near(p)) && q.Cmd != "CLUSTER" && q.Cmd != "ASKING" && q.Cmd != "COMMAND" {
 					continue
 				}
 				rep := fmt.Sprint(q.Reply)
-				if q.Cmd == "CLUSTER" {
+				if q.Cmd == "CLUSTER" || q.Cmd == "COMMAND" {
 					rep = "..."
 				}
 				if len(rep) > 60 {
